@@ -9,7 +9,8 @@ PROP = "C16"
 
 OPERANDS = ["(1<<63) % -1", "(1<<63) / -1", "-(1<<63)", "(1<<63) * -1", "(1<<63) - 1", "0 - (1<<63)", "~(1<<63) + 1", "(1<<63) % 0", "", "r1", "r31", "r32", "r99", "R0", "X", "x+", "-y", "Z+1", "Y+", "0", "1", "-1", "255", "256", "65536", "4294967296",
             "9223372036854775807", "9223372036854775808", "99999999999999999999", "$FF", "0x", "0b2", "'a'", "''", "\"s\"", "\"", "foo",
-            "pc", "1/0", "1<<64", "(", "())", "@0", "low(1)", "low(", "é", "-9223372036854775807-1", "exp2(64)", "a=1", "1 2", ";"]
+            "pc", "1/0", "1<<64", "(", "())", "@0", "low(1)", "low(", "é", "-9223372036854775807-1", "exp2(64)", "a=1", "1 2", ";",
+            "'\\400'", "'\\777'", "'\\377'", "'\\0'", "'\\n'", "'\\''", "'\\\\'", "'\\x41'", "'\\'", "'ab'", "'\\8'", "'\\1234'", "'\t'", "'\u00e9'", "'\U0001F600'", "' '"]
 SMALL = ["", "r1", "r32", "X+", "1", "-1", "99999999999999999999", "\"s\"", "foo", "1/0", "(", "@0", "4294967296", "Z+q", "'"]
 DIRECTIVES = ["byte", "cseg", "csegsize", "db", "def", "device", "dseg", "dw", "endm", "endmacro", "equ", "eseg", "exit", "include",
               "includepath", "list", "listmac", "macro", "nolist", "org", "set", "define", "else", "elif", "endif", "error", "if", "ifdef",
